@@ -157,6 +157,16 @@ def spec_validating(case, c):
     return False
 
 
+def spec_typesafe(case, c):
+    """instances of class c are instances of a type-safe class (isinstance): the property speaks about them"""
+    return any(k['deco'] is not None and opt_of(k, 'type_safe', False) for k in chain_of(case, c))
+
+
+def pi_below_type_safe_layer(case, c):
+    """a __post_init__ defined in a subclass (not itself type-safe) of a type-safe class: it replaces the new_post_init hook"""
+    return spec_typesafe(case, c) and not spec_validating(case, c)
+
+
 def user_pi(case, c):
     """the user-written __post_init__ that runs for instances of class c (the first one along the MRO)"""
     for k in chain_of(case, c):
@@ -711,13 +721,15 @@ def judge(case, w, model):
         if not verd or any(x in (96, 97, 99) for x in verd):
             continue                       # no candidate object (binding error) or a field without value
         code = i_obs[0]
+        if code == 98:
+            continue                       # the operation had no receiver on the implementation side
         jr = journal_of(i_obs)
         if op[0] == 'validate':
             want = 'accept' if all(x == 1 for x in verd) else ('reject' if any(x == 2 for x in verd) else 'any')
             if (want == 'accept' and code != 0) or (want == 'reject' and code != 1):
                 v10.append(dict(rec, clause='validate_types raises iff some field does not conform', verdicts=verd, outcome=code, cls=cls))
             continue
-        if not spec_validating(case, cls):
+        if not spec_typesafe(case, cls):
             continue
         up = user_pi(case, cls)
         if up is not None:
@@ -735,26 +747,54 @@ def judge(case, w, model):
 
 
 # ------------------------------------------------------------------------------------------ known findings
+def rejected_annotation(case, v):
+    """the annotation of the field whose check raised: the last check event of the implementation's journal
+    (annotation objects, by identity class = first token holding that object)"""
+    ev = [x for x in journal_of(v.get('impl') or [0]) if x >= 1000]
+    if not ev or ev[-1] - 1000 >= len(case['anns']):
+        return None
+    return case['anns'][ev[-1] - 1000]
+
+
 def ctx_matcher(finding, payload):
     """C10-ctx: a forward reference to a class local to the defining function resolves only in the caller's frame;
-    copy_with (frame of dataclasses.replace) and stacked new_post_init wrappers validate without it"""
+    copy_with (frame of dataclasses.replace) and stacked new_post_init wrappers validate without it.  Only a rejection
+    (PedanticTypeCheckException where the specification demands an instance) raised by the check of a field whose
+    annotation contains such a forward reference."""
     if finding.get('matcher', {}).get('id') != 'local_forward_ref_context':
         return False
     case, v = payload['case'], payload.get('violation', {})
-    if case.get('scope') != 'local' or v.get('outcome') != 1:
+    if case.get('scope') != 'local' or v.get('outcome') != 1 or not v.get('verdicts') or not all(x == 1 for x in v['verdicts']):
         return False
     cls = v.get('cls')
-    if cls is None or not any(has_fwd(case['anns'][f['tok']]) for f in merged_fields(case, cls)):
+    a = rejected_annotation(case, v)
+    if cls is None or a is None or not has_fwd(a):
         return False
     return v.get('path') == 'copy' or ts_levels(case, cls) >= 2
 
 
+def override_matcher(finding, payload):
+    """C10-override: __post_init__ defined below a type-safe layer (in a subclass that is not itself type-safe) without
+    calling super: the instance is returned although a field must not conform"""
+    if finding.get('matcher', {}).get('id') != 'post_init_defined_below_type_safe_layer':
+        return False
+    case, v = payload['case'], payload.get('violation', {})
+    cls = v.get('cls')
+    return (cls is not None and pi_below_type_safe_layer(case, cls) and v.get('outcome') == 0
+            and v.get('path') in ('ctor', 'copy', 'deep') and any(x == 2 for x in (v.get('verdicts') or [])))
+
+
+def c10_matcher(finding, payload):
+    return ctx_matcher(finding, payload) or override_matcher(finding, payload)
+
+
 def initfalse_matcher(finding, payload):
-    """C11-initfalse: init=False fields are re-initialised from their default by both copy methods"""
+    """C11-initfalse: init=False fields are re-initialised from their default by both copy methods: only when the field of
+    the copy holds exactly that re-initialised default (the default object itself / a fresh empty object of the factory)"""
     if finding.get('matcher', {}).get('id') != 'init_false_field_reinitialised':
         return False
     d = payload.get('violation', {}).get('detail', {})
-    return d.get('init') is False and d.get('clause') in (
+    return d.get('init') is False and d.get('reinit') is True and d.get('clause') in (
         'copy_with shares the un-replaced field object with the original (is)',
         "deep_copy_with: an un-replaced field equals the original's value",
         'deep_copy_with shares no mutable field object with the original')
@@ -795,7 +835,7 @@ def run(pid, tier, seed, replay=None):
     ck = Check(pid, tier, seed, UNITS, MODEL, f'Props/{pid}.v')
     ck.prepare()
     mine = (lambda v10, v11: v10) if pid == 'C10' else (lambda v10, v11: v11)
-    matcher_fn = ctx_matcher if pid == 'C10' else initfalse_matcher
+    matcher_fn = c10_matcher if pid == 'C10' else initfalse_matcher
 
     def still_fails(f):
         c = f['witness']
